@@ -136,9 +136,11 @@ static void mode_masks(Ctx &c, int entry_mask, int count) {
     LweSample *x = new_LweSample(c.ps->lwe);
     std::vector<int> targets = {0, 1, c.N - 1, c.N, c.N + 1, N2 - 1};
     for (int it = 0; it < count; it++) {
-        int cls = it % 4;
+        int cls = it < 5 ? it : (int) rng.below(5);   // the class must not be tied to the counter that also selects the slow variants
+        bool slow_variants = it < 10 || rng.below(4) == 0;
         for (int i = 0; i < c.n; i++) {
             uint32_t a = rng.u32();
+            if (cls == 4) a = rng.below(10) < 7 ? (uint32_t) rng.range(-(int64_t) half + 1, (int64_t) half - 1) : rng.u32();   // sparse: most coefficients round to 0, runs of zeros between non-zero ones
             if (cls == 1) a = (uint32_t) rng.below(N2) * width + (rng.coin() ? half - 1 : 0u - half + 1);  // every mask coefficient at a rounding edge
             if (cls == 2) a = rng.coin() ? 0xFFFFFFFFu - rng.below(3) : (uint32_t) rng.below(3);            // wrap-around
             x->a[i] = (int32_t) a;
@@ -152,10 +154,10 @@ static void mode_masks(Ctx &c, int entry_mask, int count) {
         // b is the *phase-side* value: x->b itself is what gets rounded
         x->b = (int32_t) bbar;
         Torus32 mu = it % 5 == 0 ? (Torus32) rng.i32() : (Torus32) (1u << 29);
-        const char *cn[] = {"mask:random", "mask:all-at-rounding-edge", "mask:wraparound", "mask:b-at-edge"};
+        const char *cn[] = {"mask:random", "mask:all-at-rounding-edge", "mask:wraparound", "mask:b-at-edge", "mask:sparse(runs-of-zero-exponents)"};
         for (int e = 0; e < 4; e++) {
             if (!(entry_mask & (1 << e))) continue;
-            if ((e == WOKS || e == KS) && it % 4 != 0) continue;   // coefficient-domain variants are slow: every 4th case
+            if ((e == WOKS || e == KS) && !slow_variants) continue;   // coefficient-domain variants are slow: a random quarter of the cases
             run_bootstrap(c, e, mu, x, cn[cls], false);
         }
         char cell[160]; snprintf(cell, sizeof cell, "%s:%s:p=%s", c.cfg.c_str(), cn[cls], p == 0 ? "0" : p == 1 ? "1" : p == c.N - 1 ? "N-1" : p == c.N ? "N" : p == c.N + 1 ? "N+1" : p == N2 - 1 ? "2N-1" : "random");
@@ -171,11 +173,11 @@ static void mode_extract(Ctx &c, int step, bool fft, bool nofft) {
     std::vector<int32_t> bara(n);
     GuardedLwe g(&c.ps->tlwe->extracted_lweparams);
     for (int p = 0; p < N2; p += step) {
-        int cls = p % 4;
+        int cls = (int) rng.below(5);   // independent of p (p also selects which cases run the slow coefficient-domain variant)
         for (int j = 0; j < N; j++) v->coefsT[j] = cls == 3 ? (j & 1 ? INT32_MIN : INT32_MAX) : rng.i32();
         int64_t S = 0;
         for (int i = 0; i < n; i++) {
-            int a = cls == 0 ? (int) rng.below(N2) : cls == 1 ? (rng.coin() ? 0 : N2 - 1) : cls == 2 ? (i == (p % n) ? (int) rng.below(N2) : 0) : (int) rng.below(N2);
+            int a = cls == 0 ? (int) rng.below(N2) : cls == 1 ? (rng.coin() ? 0 : N2 - 1) : cls == 2 ? (i == (p % n) ? (int) rng.below(N2) : 0) : cls == 4 ? (rng.below(3) ? 0 : (int) rng.below(N2)) : (int) rng.below(N2);
             bara[i] = a; S += (int64_t) a * c.s[i];
         }
         int barb = (int) (((p + S) % N2 + N2) % N2);
@@ -191,7 +193,7 @@ static void mode_extract(Ctx &c, int step, bool fft, bool nofft) {
             U ph = ref_lwe_phase(g.s, c.ext.data(), c.k * N);
             double d = torus_dist(ph, want);
             out.evaluations++;
-            double tolc = c.tol_woks + (cls == 1 || cls == 2 ? c.tol_struct : 0);
+            double tolc = c.tol_woks + (cls == 1 || cls == 2 || cls == 4 ? c.tol_struct : 0);
             if (d > tolc)
                 out.viol(std::string("blindrotate-extract:") + (variant == 0 ? "fft" : "coef") + (d > 0.01 ? ":wrong-coefficient" : ":noise-bound"),
                          J().s("config", c.cfg).i("p", p).i("barb", barb).i("exponent_class", cls).u("phase_out", ph).u("expected_v_p", want).d("distance", d).d("tolerance", tolc));
